@@ -8,8 +8,8 @@ TS=/tmp/ts
 if [ "${1:-}" = "--clean" ]; then git -C /repo worktree remove --force $TS/repo 2>/dev/null; rm -rf $TS; git -C /repo worktree prune; exit 0; fi
 PATCH="$(readlink -f "$1")"; DEMO="$2"; shift 2
 if [ ! -d $TS/repo ]; then mkdir -p $TS; git -C /repo worktree add --detach $TS/repo HEAD -q; cp /repo/Cargo.lock $TS/repo/; fi
-rsync -a --delete --exclude target --exclude replays --exclude evidence --exclude work --exclude .git /verif/ $TS/verif/
-sed -i "s#/repo/#$TS/repo/#g" $TS/verif/harness/Cargo.toml
+rsync -a --delete --exclude target --exclude replays --exclude evidence --exclude work --exclude .git ${VERIF_SRC:-/verif}/ $TS/verif/
+sed -i -e "s#\"[^\"]*/repo/chess\"#\"$TS/repo/chess\"#" -e "s#\"[^\"]*/repo/chess_base\"#\"$TS/repo/chess_base\"#" $TS/verif/harness/Cargo.toml
 export VERIF_TARGET_DIR=$TS/target CARGO_TARGET_DIR=$TS/repo-target
 cd $TS/repo; git checkout -q -- .; rm -f chess/tests/seed_demo.rs
 git apply "$PATCH" || { echo "PATCH-DOES-NOT-APPLY"; exit 3; }
